@@ -152,7 +152,8 @@ func runProgram(dir string, jobs []string, fixedBudget time.Duration) progResult
 		done := make(chan error, 1)
 		go func() { done <- cmd.Wait() }()
 		var waitErr error
-		killed := false
+		killed, memKilled := false, false
+		ticks := 0
 		lastBegin := time.Now()
 		seenLines := 0
 		budget := 15 * time.Minute // until LOAD reports the size
@@ -190,6 +191,12 @@ func runProgram(dir string, jobs []string, fixedBudget time.Duration) progResult
 					<-done
 					skippedByDeadline++
 					return pr
+				}
+				if ticks++; ticks%20 == 0 && rssMB(cmd.Process.Pid) > 6144 {
+					killed, memKilled = true, true
+					cmd.Process.Kill()
+					waitErr = <-done
+					break wait
 				}
 				if time.Since(lastBegin) > budget {
 					killed = true
@@ -267,6 +274,9 @@ func runProgram(dir string, jobs []string, fixedBudget time.Duration) progResult
 			o.status = "timeout"
 			o.ms = budget.Milliseconds()
 			o.msg = fmt.Sprintf("no result within the budget of %d ms (load %d ms, %d instructions)", budget.Milliseconds(), pr.loadMs, pr.instrs)
+			if memKilled {
+				o.msg = fmt.Sprintf("no result within the budget of 6 GiB of resident memory (load %d ms, %d instructions)", pr.loadMs, pr.instrs)
+			}
 		} else {
 			o.status = "crash"
 			st := stderr.String()
@@ -388,8 +398,6 @@ func main() {
 		workerMain(os.Args[2:])
 		return
 	}
-	// the driver itself calls a little repository code in-process (HasPathTo, GetAllCallingContexts): bound it too
-	syscall.Setrlimit(syscall.RLIMIT_AS, &syscall.Rlimit{Cur: 8 << 30, Max: 8 << 30})
 	var err error
 	self, err = os.Executable()
 	if err != nil {
@@ -515,9 +523,6 @@ func main() {
 			} else if fs := fieldSensitiveOnly(it, o); fs != "" {
 				key = "C07f:fieldsens-nontermination"
 				what += " — " + fs
-			} else if strings.HasPrefix(o.job, "backtrace") && pr.nBound > 0 {
-				key = "C07h:backtrace-bound-method-closures"
-				what += fmt.Sprintf(" — the program has %d bound-method closures and the job is backtrace (finding C07h)", pr.nBound)
 			} else if cl := contextLimitOnly(it, o); cl != "" {
 				key = "C07g:calling-contexts-unbounded"
 				what += " — " + cl
@@ -783,6 +788,17 @@ func contextLimitOnly(it *sweepItem, o outcome) string {
 		}
 	}
 	return ""
+}
+
+// rssMB: resident set of a process in MiB (0 when unknown).
+func rssMB(pid int) int64 {
+	b, err := os.ReadFile(fmt.Sprintf("/proc/%d/statm", pid))
+	if err != nil {
+		return 0
+	}
+	var size, rss int64
+	fmt.Sscan(string(b), &size, &rss)
+	return rss * int64(os.Getpagesize()) / (1 << 20)
 }
 
 func firstWords(s string, n int) string {
